@@ -30,7 +30,7 @@ EXHAUSTIVE = "method x protected target x spelling x flag matrix for Array and R
 METHODS = ['write_txt', 'write_jsonfile', 'write_jsondict', 'update_jsondict', 'delete_files'] + \
           ['open_file:' + m for m in ['w', 'a', 'x', 'r+', 'rb+', 'r+b', 'wb', 'ab', 'w+', 'a+', 'xb']]
 SPELLINGS = ['str', 'Path', './', './/', 'detour', 'detour-values', 'dupsep', 'abs', 'absPath', 'slash', 'dot-mid', 'updown', 'updown2']
-MUST_HIT = ['handle-opened-by-relative-path', 'spell:updown', 'path-recreated-as-other-kind', 'kind:Array', 'kind:Ragged', 'spell:Path', 'spell:./', 'spell:detour', 'target:subdir-file', 'target:dirname', 'target:absent',
+MUST_HIT = ['env:c-locale', 'handle-opened-by-relative-path', 'spell:updown', 'path-recreated-as-other-kind', 'kind:Array', 'kind:Ragged', 'spell:Path', 'spell:./', 'spell:detour', 'target:subdir-file', 'target:dirname', 'target:absent',
             'target:new-in-subdir', 'user:json', 'user:txt', 'user:overwrite-refused', 'user:delete', 'mixed-delete', 'read-protected-ok'] + \
            ['m:' + m for m in METHODS]
 
@@ -107,6 +107,9 @@ def make(kind, d):
 
 
 def execute(ctx, spec):
+    if spec.get('env'):          # a case recorded from a child interpreter under another environment (replay path)
+        from vlib import envrun
+        return envrun.execute_in_env(ctx, 'checks.c20', spec)
     out = Outcome()
     if spec['f'] == 'prot':
         return _exec_prot(ctx, spec, out)
@@ -458,8 +461,28 @@ def task_user(ctx, col, shard, n):
     hyp_search(ctx, col, st_user(), lambda s: execute(ctx, s), shard_seed(ctx, shard), n)
 
 
+LOCALE_SPECS = [
+    {'f': 'user', 'kind': k, 'name': nm, 'fam': 'txt', 'asPath': ap, 'others': ['o.u'], 'txt': txt, 'txt2': 'zweite Fassung: äöü €\n'}
+    for k in ('Array', 'Ragged') for nm, ap in (('notes.txt', False), ('lab-notes', True))      # (file NAMES stay ASCII: the C locale cannot encode others)
+    for txt in ('plain ascii\n', 'grüß dich\n', '日本語 text\r\nline 2', '€ \u2010 \U0001F600', 'caf\u00e9')
+] + [
+    {'f': 'user', 'kind': k, 'name': 'extra.json', 'fam': 'json', 'asPath': False, 'others': [],
+     'd': [['a', {'t': 'str', 'v': 'é日本'}], ['ö', {'t': 'list', 'v': [{'t': 'str', 'v': '€'}, {'t': 'int', 'v': 1}]}]], 'd2': [['z', {'t': 'str', 'v': 'ü'}]]}
+    for k in ('Array', 'Ragged')
+]
+
+
+def task_locale(ctx, col, n):
+    """User-file round trips in a child interpreter whose default text encoding is ASCII (LC_ALL=C, UTF-8 mode off): what
+    write_txt / write_jsondict store must come back through read_txt / read_jsondict there too."""
+    from vlib import envrun
+    from vlib.runner import hyp_collect
+    specs = LOCALE_SPECS + hyp_collect(st_user(), shard_seed(ctx, 77), n)
+    envrun.run_specs(ctx, col, 'checks.c20', specs, 'c-locale')
+
+
 def tasks(ctx):
-    t = []
+    t = [(task_locale, dict(n=ctx.pick(150, 2000)))]
     for sh in range(NSHARDS):
         t.append((task_matrix, dict(shard=sh)))
         t.append((task_user, dict(shard=sh, n=ctx.pick(400, 2500))))
